@@ -29,7 +29,10 @@ CHECKS = {
                   "with deadlock detection",
         text="Real connect(llcp=...) and LogicalLinkController.run in virtual "
              "threads against a scripted LLCP peer; for every scenario (role x "
-             "cause of link end x exchange index x blocking socket call, calls "
+             "cause of link end - remote DISC, time-out, one host-link IOError, "
+             "device gone for good (the deactivation fails too), loop error, "
+             "local terminate - x exchange index x blocking socket call, "
+             "connections the peer rejected with FRMR before, calls "
              "issued while/after the link ends, SNEP/handover server threads) "
              "every schedule with <= 1 (thorough 2) deviations is executed; "
              "after the link ended every thread must finish with a value or "
@@ -54,7 +57,7 @@ CHECKS = {
              "a simulated reader, where every host-link transfer (also of "
              "threads a driver starts itself) is checked for lock ownership "
              "and overlap."
-             " Entry points include leaving the with-block through KeyboardInterrupt / an application error.",
+             " Entry points include leaving the with-block through KeyboardInterrupt / an application error; device.connect() of open() counts as a driver call.",
         note="Scheduling points: lock acquisition, sleeps and a point inside "
              "every driver method; 2-3 threads; the proxy driver answers like "
              "a Type 2 tag / FeliCa reader so that connect() runs through "
@@ -169,7 +172,7 @@ CHECKS = {
              "both link loops plus blocking senders/receivers (and a "
              "busy-toggling thread) under every schedule with <= 2 (thorough "
              "3) deviations."
-             " Scenarios include close, two senders on one socket and a second connection from the address just released.",
+             " Scenarios include close, two senders on one socket (remote window 1 and 2), a second connection from the address just released and a server that sends right after accept() (schedules of the connection set-up included).",
         note="NFC-DEP replaced by sim/llcpump.py / sim/pairmac.py; close() is "
              "only exercised in C09; 'random walks' of the quantifier are not "
              "done (sampling)."),
